@@ -55,8 +55,14 @@ impl MessageReader<'_> {
     pub(crate) fn nesting_depth(&mut self) -> usize {
         let mut depth = 0;
         let mut current = self;
-        while !matches!(current, Self::Reader(_)) {
-            current = current.get_mut();
+        loop {
+            // step into the reader directly below this layer
+            // (`Self::get_mut` descends further when that one is an encryption layer itself)
+            current = match current {
+                Self::Compressed(r) => r.get_mut().get_mut(),
+                Self::Edata(r) => r.get_mut().get_mut(),
+                Self::Reader(_) => break,
+            };
             depth += 1;
         }
         depth
